@@ -50,9 +50,12 @@ def run(ck, facts):
     ex = mac.fn("diplomat::AttributeInfo::extract")
     # classify the attribute names `extract` recognises: literals compared with the path segment (`seg == "x"` chains) and string
     # patterns of a match on the segment's text (`match seg.to_string().as_str() { "x" | "y" => .. }`); those whose branch panics are rejected
-    seg_lits = set(lits_compared_with(C.fn_body(ex), "seg"))
+    seg_lits = set()
     panicking = set()
-    for n in C.walk(C.fn_body(ex)):
+    ex_bodies = [C.fn_body(g) for g in C.fns_inl(mac, ex)]    # the classification may live in a helper `extract` calls
+    for b_ in ex_bodies:
+        seg_lits |= set(lits_compared_with(b_, "seg"))
+    for n in (x for b_ in ex_bodies for x in C.walk(b_)):
         if n.get("k") == "if":
             ls = lits_compared_with(n["c"], "seg")
             if ls and C.panic_macro_of(n["t"]):
@@ -167,7 +170,7 @@ def run(ck, facts):
     on_path = False
     for n in C.walk(C.fn_body(cm)):
         if n.get("k") == "letst" and n["pat"].get("n") == "params":
-            on_path = any(x.get("k") == "mcall" and x.get("m") == "fmt_identifier" for x in C.calls_in(n["init"]))
+            on_path = any(x.get("k") == "mcall" and x.get("m") == "fmt_identifier" for x in C.walk_inl(tool, n["init"], 2, exclude=[cm["path"]]))
     ck.expect(on_path, "R4", "c::gen_method/escape-on-path", "", "C parameter names are no longer passed through fmt_identifier", C.loc(cm))
     cf = tool.fn("cpp::formatter::Cpp2Formatter::fmt_param_name")
     ck.expect(any(x.get("k") == "mcall" and x.get("m") == "fmt_identifier" for x in C.calls_in(C.fn_body(cf))), "R4", "cpp::fmt_param_name/escape", "", "C++ parameter names are no longer escaped with fmt_identifier", C.loc(cf))
@@ -291,12 +294,15 @@ def run(ck, facts):
         for arm in mt["arms"]:
             pv = arm["pat"]
             names = sorted({(v or "").split("::")[-1] for v in [pv.get("v")] + [a_.get("v") for a_ in (pv.get("alts") or [])] if v})
-            quotes = [m_.get("src", "") for m_ in C.walk(arm["b"]) if m_.get("k") == "macro" and m_.get("name") in ("quote", "parse_quote")]
-            annotated = [q for q in quotes if re.search(r"let\s+#name\s*:", q)]
-            if not annotated or "Function" in names:
+            if "Function" in names:
+                continue
+            # the arm's own body, or the body of the helper it delegates to: the unit that holds the annotated template must itself consult cast_to
+            holders = [b_ for b_ in C.bodies_inl(facts.macro, arm["b"], exclude=[pc["path"]])
+                       if any(m_.get("k") == "macro" and m_.get("name") in ("quote", "parse_quote") and re.search(r"let\s+#name\s*:", m_.get("src", "")) for m_ in C.walk(b_))]
+            if not holders:
                 continue
             na += 1
-            uses_cast = any(x.get("k") == "local" and x.get("n") == "cast_to" for x in C.walk(arm["b"]))
+            uses_cast = all(any(x.get("k") == "local" and x.get("n") == "cast_to" for x in C.walk(b_)) for b_ in holders)
             ck.expect(uses_cast, "R6", "macro::param_conversion/%s/uses-cast_to" % "+".join(names), "annotated conversion depends on cast_to",
                       "the %s arm annotates its conversion with a fixed (incoming-direction) type and ignores `cast_to`: for a callback argument the Rust value is handed to the "
                       "foreign function pointer unconverted (E0308 in the macro expansion)" % "+".join(names), C.loc(pc, arm.get("ln")))
@@ -352,7 +358,7 @@ def run(ck, facts):
     # ---------------- R5 (cont.) Send and Sync are emitted independently of each other
     gbf = mac.fn("gen_bridge")
     marker = {}
-    for n, st in C.with_conditions(C.fn_body(gbf)):
+    for n, st in C.with_conditions_inl(mac, C.fn_body(gbf)):
         if n.get("k") == "macro" and n.get("name") in ("parse_quote", "quote"):
             mm = re.search(r"unsafe\s+impl\s+std\s*::\s*marker\s*::\s*(Send|Sync)\s+for", n.get("src", ""))
             if not mm:
@@ -408,20 +414,23 @@ def run(ck, facts):
             ck.bad("R5", "js::slice-conversion/arm", "Slice arm not found", C.loc(jf))
         else:
             # the fragment code lives in the innermost block that defines `alloc_end`-like fragment locals: take every block of the arm in order
-            blocks = [b for b in C.walk(arm["b"]) if b.get("k") == "block" and any(C.strip_keep_macro(st).get("k") == "letst" for st in (b.get("s") or []))]
+            # (in the arm, or in the helper the arm delegates to)
+            blocks = [b for b_ in C.bodies_inl(tool, arm["b"], depth=1, exclude=[jf["path"]]) for b in C.walk(b_)
+                      if b.get("k") == "block" and any(C.strip_keep_macro(st).get("k") == "letst" for st in (b.get("s") or []))]
             blk = max(blocks, key=lambda b: len(b.get("s") or [])) if blocks else None
             for ctx, abi in combos:
                 fr = fragbal.Frag({"gen_context": ctx, "abi": abi})
                 if blk is not None:
                     fr.run(blk.get("s") or [])
                 finals = [fragbal.fmt_literal(m_) for m_ in C.walk(blk.get("e") or {}) if m_.get("k") == "macro" and m_.get("name") == "format"] if blk is not None else []
-                finals = [l_ for l_ in finals if l_ and "diplomatRuntime" in l_]
-                for l_ in finals:
-                    nbal += 1
-                    text = fragbal.expand(l_, fr.vals)
-                    bal = fragbal.balance(text)
-                    key_ = "js::slice-conversion/balanced/%s+%s#%d" % (ctx, abi, sum(1 for i in ck.instances if i["rule"] == "R5" and i["key"].startswith("js::slice-conversion/balanced/%s+%s#" % (ctx, abi))))
-                    ck.expect(bal["()"] == 0 and bal["[]"] == 0, "R5", key_, text[:70],
-                              "for context %s under the %s ABI the slice conversion expands to `%s`: unbalanced brackets %s, the generated module does not parse" % (ctx, abi, text[:110], bal), C.loc(jf, arm.get("ln")))
+                for l_ in [l_ for l_ in finals if l_]:
+                    for text in fragbal.expand_all(l_, fr.vals):
+                        if "diplomatRuntime" not in text:
+                            continue   # not a conversion expression
+                        nbal += 1
+                        bal = fragbal.balance(text)
+                        key_ = "js::slice-conversion/balanced/%s+%s#%d" % (ctx, abi, sum(1 for i in ck.instances if i["rule"] == "R5" and i["key"].startswith("js::slice-conversion/balanced/%s+%s#" % (ctx, abi))))
+                        ck.expect(bal["()"] == 0 and bal["[]"] == 0, "R5", key_, text[:70],
+                                  "for context %s under the %s ABI the slice conversion expands to `%s`: unbalanced brackets %s, the generated module does not parse" % (ctx, abi, text[:110], bal), C.loc(jf, arm.get("ln")))
     if nbal < 15:
         ck.bad("R5", "js::slice-conversion/floor", "only %d (combination, literal) pairs evaluated" % nbal)
